@@ -14,10 +14,15 @@
        preserved by each of the 12 kinds of step (C05_invariant_init, C05_invariant_step).
      - complete exploration of all schedules of named finite instances (Proofs/ParSmall.v): every
        schedule terminates, none deadlocks (kept as regression guards for the model).
+     - MEANING (Proofs/ParGlue.v): the abstract outcome is the outcome of the encoder model - for the plan made of
+       the actual blocks (a block is invalid iff a sample is out of range), any worker count and any schedule, a
+       completed multi-threaded run delivers exactly the frames Encoder.encode_blocks returns, all of them and in
+       order, or its configuration error (C05_par_result_is_encode_blocks); byte identity then follows because the
+       stream is a function of those frames.
    The tie to par.rs is trace
    validation: every event log recorded from the implementation under schedule perturbation must be
    a run of the extracted LTS ending in the implementation's outcome (PAR stream). *)
-From FV Require Import Model.Base Model.Par Proofs.ParSmall Proofs.ParP.
+From FV Require Import Model.Base Model.Rice Model.Predict Model.Component Model.Encoder Model.Par Proofs.ParSmall Proofs.ParP Proofs.ParGlue.
 
 Theorem C05_all_schedules_w1_b1 : all_schedules_ok (mkPlan 1 1 None (fun _ => false)) 40 = true.
 Proof. exact par_w1_b1. Qed.
@@ -45,3 +50,19 @@ Theorem C05_invariant_step : forall (p : plan) (s : pstate) (l : label) (s' : ps
   Inv p s -> step p s l = Some s' -> Inv p s'.
 Proof. exact inv_step. Qed.
 Print Assumptions C05_invariant_step.
+
+(* ---- what the outcome means: the frames of the encoder model ---- *)
+(* frames_total: the frame encoder answers on every block whose samples are in range (C07_verified_config_encodes
+   gives this for verified configurations under the named estimator hypotheses) *)
+Theorem C05_par_result_is_encode_blocks :
+  forall (ent : N -> N -> N -> N) (qlpc : N -> N -> qparams) cfg rate channels bps
+         (w : nat) (blocks : list (list Z)) (ls : list label) (s : pstate),
+    (1 <= w)%nat -> frames_total ent qlpc cfg rate channels bps blocks -> (N.of_nat (length blocks) <= 2 ^ 31)%N ->
+    run (plan_of bps w blocks) (init (plan_of bps w blocks)) ls = Some s -> final s = true ->
+    match encode_blocks ent qlpc cfg rate channels bps 0 blocks with
+    | Ok frames => result_of s = OutOk (seq 0 (length blocks)) (seq 0 (length blocks)) /\ length frames = length blocks
+    | Err e => result_of s = OutConfigErr /\ e = E_VERIFY
+    | Panic _ => False
+    end.
+Proof. exact par_result_is_encode_blocks. Qed.
+Print Assumptions C05_par_result_is_encode_blocks.
